@@ -201,8 +201,8 @@ impl Property for C15 {
     }
     fn cases(&self, tier: Tier) -> u64 {
         match tier {
-            Tier::Quick => 100_000,
-            Tier::Thorough => 2_000_000,
+            Tier::Quick => 300_000,
+            Tier::Thorough => 3_000_000,
         }
     }
     fn stream_len(&self) -> usize {
@@ -312,8 +312,8 @@ impl Property for C16 {
     }
     fn cases(&self, tier: Tier) -> u64 {
         match tier {
-            Tier::Quick => 100_000,
-            Tier::Thorough => 2_000_000,
+            Tier::Quick => 300_000,
+            Tier::Thorough => 3_000_000,
         }
     }
     fn generate(&self, s: &mut Src) -> Case {
